@@ -75,10 +75,12 @@ CLAIMED = {
     "C14": dict(
         text="Lean 4: C14_impl_law (the component pick hands rel_i/sum rel to the generator, independent of molecule masses), C14_fair_iff / C14_impl_fair_iff "
              "(over Q, Finset sums: mass shares equal the declared fractions iff p_i is proportional to f_i/mean mass_i; for the implemented law iff all mean "
-             "masses are equal), C14_counterexample. The check reads the probability vector off the rng.choice interface, measures mean molecule masses and "
+             "masses are equal), C14_counterexample, C14_realised_share_tendsto (over R, Mathlib filters: for every realised sequence of picks and masses, pick "
+             "frequencies -> p and sample mean masses -> m imply realised mass share -> p_i m_i / sum p_j m_j). The check reads the probability vector off the rng.choice interface, measures mean molecule masses and "
              "applies the share formula: the pinned tree violates the property whenever masses differ (KNOWN-FINDING); any other selection law that is unfair "
              "is a new violation.",
-        note="Partial: the almost-sure convergence of realised mass shares (renewal-reward theorem) is cited, not formalised; the decision is taken at the generator "
+        note="Partial: that pick frequencies and sample means converge almost surely (strong law of large numbers) is cited, not formalised; the passage from those "
+             "two limits to the realised mass share is a theorem (C14_realised_share_tendsto); the decision is taken at the generator "
              "interface, never from frequencies.",
         technique="Lean 4 algebraic proof (fairness criterion) + interface-level differential check",
         ref="7/C14"),
